@@ -8,9 +8,14 @@
    Part C = a skewed page: tilted baselines (Pythagorean directions, exact integer rotations) in rectangular regions through the
    orientation loop and the merge loop (merge_lines: de-skew about the origin, merge, rotate back): CPieceOfDetected,
    CWhollyInsideKept.  Self-test: MergeBackSame=TRUE (rotating "back" by the same angle) must violate CWhollyInsideKept.
+   Part C history: a second pass on the same region objects after their polygons were edited in place (CEdit: scaled with the
+   lines, shifted).  Self-test: StaleOutline=TRUE (clipping outline cached with the region object) must violate CWhollyInsideKept.
 2. Cases: the same configurations are built with numpy polygons and handed to the real
    layout_helpers.assign_lines_to_regions and to the real LayoutExtractor.process_page (stub detector).
-   Part C: the same rectangles / tilted baselines through the real LayoutExtractor.process_page with MERGE_LINES on and off.
+   Part C: the same rectangles / tilted baselines through the real LayoutExtractor.process_page with MERGE_LINES on and off;
+   object-state variants: two passes on the same supplied region objects with region.polygon edited IN PLACE between them (the
+   second pass is judged against the polygon as it is then), and supplied regions that are copy.copy() of one template region
+   (one shared `lines` list).
 3. Conformance: RegionAssign_Trace, property level: Mandatory <= observed <= Allowed, outline clipped, ids distinct; kind "tilt":
    every returned line inside its rectangle and a piece of one detected baseline (0.1 px), outline inside the band of that baseline,
    every baseline wholly inside a rectangle (and not mergeable) returned with its points unchanged.
@@ -74,6 +79,8 @@ FAM_C = {
     "xs": [80, 300, 560],                                                # x of the first point: left column, across the gap, right column
     "lens": [200, 320],                                                  # approximate x-extent
     "page": (800, 1000),                                                 # height, width
+    # in-place edits of the region polygons between two passes (f, dx, dy): polygon *= f; polygon += (dx, dy); f also scales the lines
+    "edits": [(1, 200, 100), (2, 0, 0)],
 }
 SUPPLIED_ID_C = {"P": "r000", "Lc": "r000_1", "Rc": "r000_3", "In": "r001"}
 
@@ -112,7 +119,8 @@ def mc_part_c():
     regsets = ",\n ".join("{" + ", ".join(_tla_rect(n) for n in rs) + "}" for rs in FAM_C["regsets"])
     lines = ",\n ".join(_tla_line(tilted_line(sl, xi, li, di)) for di in range(len(FAM_C["dirs"]))
                         for sl in range(len(FAM_C["slots"])) for xi in range(len(FAM_C["xs"])) for li in range(len(FAM_C["lens"])))
-    return "MCRegSetsC == {%s}\nMCLineSetC == {%s}\n" % (regsets, lines)
+    edits = ", ".join("[f |-> %d, dx |-> %d, dy |-> %d]" % e for e in FAM_C["edits"])
+    return "MCRegSetsC == {%s}\nMCLineSetC == {%s}\nMCEditsC == {%s}\n" % (regsets, lines, edits)
 
 
 def ring_of(lib, name):
@@ -133,9 +141,10 @@ def mc_module(lib, names, root):
     return "---- MODULE MC_%s ----\nEXTENDS %s\nMCShapes == {%s}\n%s====\n" % (root, root, ",\n ".join(items), mc_part_c())
 
 
-def constants(ncols, nrows, maxregs, maxlines, legacy=False, cmax=2, back_same=False):
+def constants(ncols, nrows, maxregs, maxlines, legacy=False, cmax=2, back_same=False, stale=False):
     return {"Shapes": "<- MCShapes", "NCols": ncols, "NRows": nrows, "MaxRegs": maxregs, "MaxLines": maxlines, "Legacy": legacy,
-            "CRegSets": "<- MCRegSetsC", "CLineSet": "<- MCLineSetC", "CMaxLines": cmax, "MergeBackSame": back_same}
+            "CRegSets": "<- MCRegSetsC", "CLineSet": "<- MCLineSetC", "CMaxLines": cmax, "MergeBackSame": back_same,
+            "CEdits": "<- MCEditsC", "StaleOutline": stale}
 
 
 def all_lines(ncols, nrows):
@@ -362,28 +371,66 @@ class StubEngineC:
         return p_list, bl, hl, tl
 
 
+def _edit_line(l, e):
+    f = e[0]
+    return dict(l, a=[f * v for v in l["a"]], ks=[f * k for k in l["ks"]], h=[f * v for v in l["h"]])
+
+
+def _edit_rect(name, e):
+    f, dx, dy = e
+    x0, y0, x1, y1 = FAM_C["rects"][name]
+    return {"name": name, "x0": f * x0 + dx, "y0": f * y0 + dy, "x1": f * x1 + dx, "y1": f * y1 + dy}
+
+
 def run_tilt(case):
-    """one real call of LayoutExtractor.process_page on a skewed page; case = {"regs", "lines", "opts", "seed"}"""
+    """one real call of LayoutExtractor.process_page on a skewed page; case = {"regs", "lines", "opts", "seed"} and optionally
+    "edit": [f, dx, dy] - HISTORY: the supplied region objects first go through a plain DETECT_LINES pass, then the caller edits
+       their polygon arrays IN PLACE (polygon *= f - with the detected lines, the page at another resolution -, polygon += (dx, dy))
+       and the judged pass runs on the same objects; the trace holds the rectangles and the detected lines as they are THEN;
+    "alias": 1 - the supplied regions are shallow copies (copy.copy) of one template region that was processed before, each with its
+       own id and polygon: they share ONE `lines` list object"""
     from pero_ocr.layout_engines import layout_helpers as helpers
     from pero_ocr.core.layout import PageLayout, RegionLayout
     o = case["opts"]
-    tr = {"kind": "tilt", "opts": dict(o),
-          "rects": [dict(zip(("x0", "y0", "x1", "y1"), FAM_C["rects"][n]), name=n) for n in case["regs"]],
-          "det": [{k: l[k] for k in ("a", "d", "n", "ks", "h")} for l in case["lines"]],
+    e = tuple(case.get("edit") or (1, 0, 0))
+    lines1 = case["lines"]
+    lines2 = [_edit_line(l, e) for l in lines1]
+    tr = {"kind": "tilt", "opts": dict(o), "edit": list(e), "alias": 1 if case.get("alias") else 0,
+          "rects": [_edit_rect(n, e) for n in case["regs"]],
+          "det": [{k: l[k] for k in ("a", "d", "n", "ks", "h")} for l in lines2],
           "result": [], "outcome": "ok"}
     try:
         with contextlib.redirect_stdout(io.StringIO()), warnings.catch_warnings():
             warnings.simplefilter("ignore")
             page = PageLayout(id="p", page_size=FAM_C["page"])
-            page.regions = [RegionLayout(SUPPLIED_ID_C[n], _rect_ring(n)) for n in case["regs"]]
-            bl, hl, tl = _detected_c(case["lines"])
-            helpers.assign_lines_to_regions(bl, hl, tl, page.regions)          # the page was processed once before
+            bl, hl, tl = _detected_c(lines1)
+            if case.get("alias"):
+                template = RegionLayout("template", _rect_ring("P"))
+                helpers.assign_lines_to_regions(bl, hl, tl, [template])        # the template was processed once before
+                page.regions = []
+                for n in case["regs"]:
+                    r0 = copy.copy(template)                                   # shares template.lines
+                    r0.id, r0.polygon = SUPPLIED_ID_C[n], _rect_ring(n)
+                    page.regions.append(r0)
+            else:
+                page.regions = [RegionLayout(SUPPLIED_ID_C[n], _rect_ring(n)) for n in case["regs"]]
+                helpers.assign_lines_to_regions(bl, hl, tl, page.regions)      # the page was processed once before
             supplied = list(page.regions)
             name_of = {id(r0): n for r0, n in zip(supplied, case["regs"])}
-            le = _make_extractor(o, StubEngineC(case["regs"], case["lines"]))
+            engine = StubEngineC(case["regs"], lines1)
+            img = np.zeros(FAM_C["page"] + (3,), dtype=np.uint8)
             random.seed(case.get("seed", 0))
             np.random.seed(case.get("seed", 0))
-            res = le.process_page(np.zeros(FAM_C["page"] + (3,), dtype=np.uint8), page)
+            if case.get("edit"):
+                first = _make_extractor({"dr": 0, "dl": 1, "merge": 0, "multi": 0}, engine)
+                page = first.process_page(img, page)
+                for r0 in supplied:                                            # in place: the array objects stay
+                    r0.polygon *= e[0]
+                    r0.polygon += np.array([e[1], e[2]], dtype=np.float64)
+                engine.lines = lines2
+                img = np.zeros((e[0] * FAM_C["page"][0], e[0] * FAM_C["page"][1], 3), dtype=np.uint8)
+            le = _make_extractor(o, engine)
+            res = le.process_page(img, page)
         for r in res.regions:
             name = name_of.get(id(r))
             if name is None:
@@ -441,7 +488,12 @@ def signature(tr, prog):
     if tr["kind"] == "tilt":
         what = {0: tr["outcome"], 1: "duplicate-line-ids", 2: "not-a-piece-of-detected-baseline", 3: "outline-not-clipped",
                 4: "wholly-inside-not-kept"}.get(prog, "clause%d" % prog)
-        return "tilt:%s:dr=%d,dl=%d,merge=%d,multi=%d" % (what, o["dr"], o["dl"], o["merge"], o["multi"])
+        var = ""
+        if tr.get("edit", [1, 0, 0]) != [1, 0, 0]:
+            var = ",polygon-edited-in-place=%s" % ("scale" if tr["edit"][0] != 1 else "shift")
+        if tr.get("alias"):
+            var += ",shared-lines-list=1"
+        return "tilt:%s:dr=%d,dl=%d,merge=%d,multi=%d%s" % (what, o["dr"], o["dl"], o["merge"], o["multi"], var)
     what = {0: tr["outcome"], 1: "duplicate-line-ids", 2: "line-outside-region"}.get(prog, "clause%d" % prog)
     return "extract:%s:dr=%d,dl=%d,merge=%d,multi=%d" % (what, o["dr"], o["dl"], o["merge"], o["multi"])
 
@@ -464,8 +516,11 @@ def judge(ctx, cases, traces, lib_names, consts, label, drift=True):
         tr = traces[i]
         cl = {"assign": CL_A, "extract": CL_B, "tilt": CL_C}[tr["kind"]].get(prog, "clause %d" % prog)
         if tr["kind"] == "tilt":
-            what = "LayoutExtractor.process_page %s on a skewed page, regions %s, detected baselines (px) %s: %s; lines returned %s" % (
-                tr["opts"], cases[i]["regs"],
+            what = "LayoutExtractor.process_page %s on a skewed page%s, regions %s, detected baselines (px) %s: %s; lines returned %s" % (
+                tr["opts"], (" (second pass on the same region objects after polygon *= %d; polygon += (%d, %d) in place)" % tuple(tr["edit"])
+                             if tr.get("edit", [1, 0, 0]) != [1, 0, 0] else "") +
+                (" (supplied regions = copy.copy of one template: shared lines list)" if tr.get("alias") else ""),
+                [[r["name"], r["x0"], r["y0"], r["x1"], r["y1"]] for r in tr["rects"]],
                 [[[l["a"][0] + k * l["d"][0], l["a"][1] + k * l["d"][1]] for k in (l["ks"][0], l["ks"][-1])] for l in tr["det"]], cl,
                 [(r["name"], ln["id"], [[round(v / 1000.0, 2) for v in q] for q in (ln["pts"][0], ln["pts"][-1])] if ln["pts"] else [])
                  for r in tr["result"] for ln in r["lines"]])
@@ -499,9 +554,15 @@ OPTS_C_QUICK = [(0, 1, 1, 0), (1, 1, 1, 0), (0, 0, 1, 0), (0, 1, 0, 0), (1, 1, 0
 OPTS_C_MORE = [(0, 1, 1, 1), (1, 1, 1, 1), (0, 0, 1, 1), (1, 0, 1, 0), (1, 1, 0, 1)]
 
 
+VAR_OPTS_EDIT = [(0, 1, 0, 0), (0, 1, 1, 0), (0, 1, 0, 1), (0, 1, 1, 1)]
+VAR_OPTS_ALIAS = [(0, 1, 0, 0), (0, 1, 1, 0), (0, 0, 1, 0), (0, 1, 0, 1), (0, 1, 1, 1)]
+
+
 def tilt_cases(quick):
     """Part C executions: quick = every list of <= 2 baselines and every 8th list of 3, each with ONE of the 15 (region set, option
-    set) combinations in turn; thorough = every list of <= 2 baselines with all 30 combinations, every list of 3 with two of them"""
+    set) combinations in turn; thorough = every list of <= 2 baselines with all 30 combinations, every list of 3 with two of them.
+    Object-state variants (in-place polygon edit between two passes / shared lines list): quick = every second list of <= 2
+    baselines with one of the 21 (region set, variant, option set) combinations in turn; thorough = every list of <= 2 with 8 of 39"""
     cases = []
 
     def add(ls, regs, o, seed):
@@ -519,6 +580,19 @@ def tilt_cases(quick):
                 picks = combos if len(ls) <= 2 else [combos[idx % len(combos)], combos[(idx + 7) % len(combos)]]
             for rs, o in picks:
                 add(ls, rs, o, idx)
+            # round 9 - object state: (a) history: the same supplied region objects through two passes with the polygon arrays edited
+            # in place between them, (b) supplied regions that are shallow copies of one template (one shared `lines` list)
+            if len(ls) <= 2:
+                var = [({"edit": list(e)}, o) for e in FAM_C["edits"] for o in VAR_OPTS_EDIT[:2 if quick else 4]]
+                var += [({"alias": 1}, o) for o in VAR_OPTS_ALIAS[:3 if quick else 5]]
+                var = [(rs, v, o) for rs in FAM_C["regsets"] for v, o in var]
+                if quick:
+                    picks = [var[(idx // 2 + di) % len(var)]] if idx % 2 == 0 else []
+                else:
+                    picks = [var[(idx + di + 4 * j) % len(var)] for j in range(8)]
+                for rs, v, o in picks:
+                    add(ls, rs, o, idx)
+                    cases[-1].update(v)
     return cases
 
 
@@ -553,6 +627,9 @@ def run(ctx):
     ctx.assume("regions are rectilinear polygons on a 2 px cell grid; detected lines are horizontal, end in cell centres and have "
                "heights (1, 1) so that their outline is one grid row",
                "the stub detector returns the same regions and lines for every orientation (Part C: the tilted lines for rot 0 only)",
+               "Part C object-state variants: regions whose polygon array was edited in place between two passes, and regions that "
+               "share one `lines` list object (shallow copies of a template), are ordinary inputs: the pass is judged on what the page "
+               "holds afterwards; DETECT_STRAIGHT_LINES_IN_REGIONS (needs the network) is not executed",
                "Part C: baselines in different rows (140 px apart, heights <= 20 px) are not mergeable; 'unchanged' / 'piece of the "
                "detected baseline' within 0.1 px (the rotate-forth-and-back of merge_lines is exact to ~1e-13 px); under MERGE_LINES "
                "'placed unchanged' is demanded only of baselines at least twice the summed heights away from every other baseline",
@@ -590,6 +667,9 @@ def run(ctx):
     ctx.tlc("MC_RegionAssign", constants=constants(3, 2, 1, 1, cmax=2, back_same=True), init="CInit", next_="CNext",
             invariants=["CWhollyInsideKept"], workers=1, coverage=False, files=fb, expect_violation="CWhollyInsideKept",
             label="self-test MergeBackSame=TRUE (merge_lines rotates back by the same angle)")
+    ctx.tlc("MC_RegionAssign", constants=constants(3, 2, 1, 1, cmax=1, stale=True), init="CInit", next_="CNext",
+            invariants=["CWhollyInsideKept"], workers=1, coverage=False, files=fb, expect_violation="CWhollyInsideKept",
+            label="self-test StaleOutline=TRUE (outline cached with the region object survives an in-place edit of its polygon)")
     _dbg(ctx, "design done")
 
     # ---- Part A: real assign_lines_to_regions on the same space
